@@ -460,3 +460,7 @@ for k, extra in (("C02", "TLC first checks the same monitor exhaustively on MC_C
 for _p in ("C06", "C13"):
     for _t, _n in (("quick", "48"), ("thorough", "200")):
         PROPS[_p]["drivers"][_t].append({"args": ["c14", "--sets", _n, "--nmax", "4"], "shards": 1})
+
+# cluster runs in a debug-assertion build also serve C06 (panics are reported by Trace_Cluster)
+PROPS["C06"]["drivers"]["quick"] += [cl("c04", [], 2), cl("c02", ["--runs", "40", "--nmax", "8"], 1)]
+PROPS["C06"]["drivers"]["thorough"] += [cl("c04", ["--thorough"], 4), cl("c02", ["--runs", "200", "--nmax", "12"], 4)]
